@@ -571,16 +571,28 @@ structure GRow where
 
 def isoFmt : List Tok := tokenize "4Y-2M-2DT2h:2m:2s".toList
 
+/-! the lines `writeToGpx` writes for one track (each `f.write` ends with a newline) -/
+def lTrk : Str := "    <trk>".toList
+def lName (name : Str) : Str := "    <name>".toList ++ (name ++ "</name>".toList)
+def lSeg : Str := "        <trkseg>".toList
+def lPt (r : GRow) : Str :=
+  "            <trkpt lat=".toList ++ '"' :: (fixedWS 3 8 r.y ++ '"' :: (" lon=".toList ++ '"' :: (fixedWS 3 8 r.x ++ '"' :: ">".toList)))
+def lEle (r : GRow) : Str := "                <ele>".toList ++ (fixedWS 3 8 r.z ++ "</ele>".toList)
+def lTime (r : GRow) : Str := "                <time>".toList ++ (printTime isoFmt r.t ++ "Z</time>".toList)
+def lEndPt : Str := "            </trkpt>".toList
+def lEndSeg : Str := "        </trkseg>".toList
+def lEndTrk : Str := "    </trk>".toList
+def lEndGpx : Str := "</gpx>".toList
+
+def ptLines (r : GRow) : List Str := [lPt r, lEle r, lTime r, lEndPt]
+
+def gpxLines (name : Str) (rows : List GRow) : List Str :=
+  [lTrk, lName name, lSeg] ++ (rows.map ptLines).flatten ++ [lEndSeg, lEndTrk, lEndGpx]
+
 /-- `writeToGpx(track, path)` for one track, from the `<trk>` line on (the metadata block above it
-contains the current time); coordinates `{:3.8f}` of `n / 10^8`, zone 0 -/
-def gpxBody (name : Str) (rows : List GRow) : Str :=
-  "    <trk>\n".toList ++ "    <name>".toList ++ name ++ "</name>\n".toList ++ "        <trkseg>\n".toList ++
-  (rows.map (fun r =>
-    "            <trkpt lat=\"".toList ++ fixedWS 3 8 r.y ++ "\" lon=\"".toList ++ fixedWS 3 8 r.x ++ "\">\n".toList ++
-    "                <ele>".toList ++ fixedWS 3 8 r.z ++ "</ele>\n".toList ++
-    "                <time>".toList ++ printTime isoFmt r.t ++ "Z</time>\n".toList ++
-    "            </trkpt>\n".toList)).flatten ++
-  "        </trkseg>\n".toList ++ "    </trk>\n".toList ++ "</gpx>\n".toList
+contains the current time); coordinates `{:3.8f}` of `n / 10^8`, zone 0 (`Z`), time printed with
+`4Y-2M-2DT2h:2m:2s` -/
+def gpxBody (name : Str) (rows : List GRow) : Str := ((gpxLines name rows).map (· ++ ['\n'])).flatten
 
 structure GState where
   inTrk : Bool := false
@@ -599,47 +611,64 @@ def tagText (line : Str) : Except String Str := do
   let a ← nth (splitOnChar '>' line) 1
   nth (splitOnChar '<' a) 0
 
-/-- one line of the `trk` scanner of `__readFromGpx`; `geo` says whether `pos.hgt = …` reaches the
-third coordinate (it does for GeoCoords only: on ENU/ECEF coordinates it creates an unused attribute) -/
+/-- the `<trkpt …>` test of the scanner: `splits = line.split('"')`, `makeCoords(float(splits[3]), float(splits[1]), 0, srid)` -/
+def gpxPt (st : GState) (line : Str) : Except String GState :=
+  if isInfix "<trkpt ".toList line then do
+    let sp := splitOnChar '"' line
+    let lon ← nth sp 3
+    let lat ← nth sp 1
+    let x ← match parseDec? lon with | some v => pure v | none => throw "value"
+    let y ← match parseDec? lat with | some v => pure v | none => throw "value"
+    pure { st with inPt := true, pos := some (x, y, (0, 0)) }
+  else pure st
+
+/-- the `</trkpt>` test: `tracks[-1].addObs(Obs(pos, tps))` -/
+def gpxEndPt (st : GState) (line : Str) : Except String GState :=
+  if isInfix "</trkpt>".toList line then
+    match st.pos, st.tps with
+    | some (x, y, z), some t => do
+      let ts ← appendLast st.tracks ⟨x, y, z, t⟩
+      pure { st with inPt := false, tracks := ts }
+    | _, _ => throw "unbound"
+  else pure st
+
+/-- the `<ele>` test; `geo` says whether `pos.hgt = …` reaches the third coordinate (it does for
+GeoCoords only: on ENU/ECEF coordinates it creates an unused attribute) -/
+def gpxEle (geo : Bool) (st : GState) (line : Str) : Except String GState :=
+  if isInfix "<ele>".toList line then do
+    let e ← tagText line
+    let v ← match parseDec? e with | some v => pure v | none => throw "value"
+    match st.pos with
+    | some (x, y, z) => pure { st with pos := some (x, y, if geo then v else z) }
+    | none => throw "unbound"
+  else pure st
+
+/-- the `<time>` test: `tps = ObsTime(text)` with the current read format -/
+def gpxTime (rf : List Tok) (st : GState) (line : Str) : Except String GState :=
+  if isInfix "<time>".toList line then do
+    let e ← tagText line
+    match readTimestamp rf e with
+    | some t => pure { st with tps := some t }
+    | none => throw "value"
+  else pure st
+
+/-- one line of the `trk` scanner of `__readFromGpx` -/
 def gpxLine (rf : List Tok) (geo : Bool) (st : GState) (line : Str) : Except String GState := do
-  let mut st := st
-  if isInfix "<trk>".toList line then
-    st := { st with inTrk := true, inPt := false, tracks := st.tracks ++ [[]] }
-  if isInfix "</trk>".toList line then
-    st := { st with inTrk := false }
-  if st.inTrk then
-    if isInfix "<trkpt ".toList line then
-      let sp := splitOnChar '"' line
-      let lon ← nth sp 3
-      let lat ← nth sp 1
-      let x ← match parseDec? lon with | some v => pure v | none => throw "value"
-      let y ← match parseDec? lat with | some v => pure v | none => throw "value"
-      st := { st with inPt := true, pos := some (x, y, (0, 0)) }
-    if isInfix "</trkpt>".toList line then
-      match st.pos, st.tps with
-      | some (x, y, z), some t =>
-        let ts ← appendLast st.tracks ⟨x, y, z, t⟩
-        st := { st with inPt := false, tracks := ts }
-      | _, _ => throw "unbound"
-    if st.inPt then
-      if isInfix "<ele>".toList line then
-        let e ← tagText line
-        let v ← match parseDec? e with | some v => pure v | none => throw "value"
-        match st.pos with
-        | some (x, y, z) => st := { st with pos := some (x, y, if geo then v else z) }
-        | none => throw "unbound"
-      if isInfix "<time>".toList line then
-        let e ← tagText line
-        match readTimestamp rf e with
-        | some t => st := { st with tps := some t }
-        | none => throw "value"
-  return st
+  let st1 := if isInfix "<trk>".toList line then
+      { st with inTrk := true, inPt := false, tracks := st.tracks ++ [[]] } else st
+  let st2 := if isInfix "</trk>".toList line then { st1 with inTrk := false } else st1
+  if st2.inTrk then do
+    let st3 ← gpxPt st2 line
+    let st4 ← gpxEndPt st3 line
+    if st4.inPt then do
+      let st5 ← gpxEle geo st4 line
+      gpxTime rf st5 line
+    else pure st4
+  else pure st2
 
 /-- `TrackReader.readFromGpx(path, srid, type="trk")` on the lines of a file -/
 def readGpx (rf : List Tok) (geo : Bool) (text : Str) : Except String (List (List RRow)) := do
-  let mut st : GState := {}
-  for l in fileLines text do
-    st ← gpxLine rf geo st l
+  let st ← (fileLines text).foldlM (gpxLine rf geo) {}
   return st.tracks
 
 end TV.TextIO
